@@ -45,23 +45,32 @@ func runC43(c *an.Ctx) {
 		if w.Field != bloomField {
 			continue
 		}
-		// chase calls backwards
-		v := w.Val
-		for i := 0; i < 6; i++ {
+		// chase calls backwards, through private helpers too
+		var chase func(v ssa.Value, depth int)
+		chase = func(v ssa.Value, depth int) {
+			if depth > 8 || allLogs != nil {
+				return
+			}
 			v = an.Origin(v)
+			if k, isK := v.(*ssa.Call); isK && k.Call.StaticCallee() == parse {
+				allLogs = an.ResolveActual(eb, k.Call.Args[0])
+				return
+			}
+			if outs, ok := an.DerefStep(eb, v, nil); ok {
+				for _, o := range outs {
+					chase(o.V, depth+1)
+				}
+				return
+			}
 			k, ok := v.(*ssa.Call)
 			if !ok {
-				break
+				return
 			}
-			if k.Call.StaticCallee() == parse {
-				allLogs = k.Call.Args[0]
-				break
+			if len(k.Call.Args) > 0 {
+				chase(k.Call.Args[len(k.Call.Args)-1], depth+1)
 			}
-			if len(k.Call.Args) == 0 {
-				break
-			}
-			v = k.Call.Args[len(k.Call.Args)-1]
 		}
+		chase(w.Val, 0)
 	}
 	if allLogs == nil {
 		c.Violate("bloom|executeBlock|computed-from-all-logs", "result.Bloom is the logs bloom of the list of all receipt logs of the block", c.P.Rel(eb.Pos()), "result.Bloom is not computed through parseOntLogsToEth(list)")
